@@ -48,7 +48,9 @@ class RunWorld:
     # ---- calling targets from scripts
     def call(self, t):
         if t[0] == "fn":
-            return self.F[t[1]]()
+            # the contracted functions take a first parameter called `self` and get a fresh object at every call:
+            # re-entrancy is a matter of the function, whatever it is called on
+            return self.F[t[1]](object())
         if t[0] == "meth":
             return getattr(self.O[t[1]], "m%d" % t[2])()
         if t[0] == "selfmeth":
@@ -85,7 +87,7 @@ class RunWorld:
         """who is running (the concurrency driver says which task or thread; one caller here)"""
         return None
 
-    def fn_of(self, site, name, script, params=(), capture=False, old=None):
+    def fn_of(self, site, name, script, params=(), capture=False, old=None, receiver=False):
         """capture: what is captured names the caller; old: a postcondition that reads these snapshots and holds only if
         every one of them was captured by *this* caller (OLD belongs to the call)"""
         W = self
@@ -96,7 +98,13 @@ class RunWorld:
             if old:
                 return v and all(getattr(OLD, n) == ("captured-by", W.whose()) for n in old)
             return v
-        if self.is_async:
+        if receiver and self.is_async:
+            async def user(self):
+                return finish(await W.aplay(site, name, script))
+        elif receiver:
+            def user(self):
+                return finish(W.play(site, name, script))
+        elif self.is_async:
             if old:
                 async def user(OLD):
                     return finish(await W.aplay(site, name, script), OLD)
@@ -117,7 +125,7 @@ class RunWorld:
     def build(self):
         W = self
         for f, fd in enumerate(self.prog["fns"]):
-            func = self.fn_of(["body", f], "body_%d" % f, fd["body"])
+            func = self.fn_of(["body", f], "body_%d" % f, fd["body"], receiver=True)
             self.forig[f] = func
             for i, sc in enumerate(fd["post"]):
                 func = icontract.ensure(self.fn_of(["post", f, i], "post_%d_%d" % (f, i), sc,
